@@ -13,6 +13,7 @@ from rv.gen import geoms
 
 ANCHORS = ("geometry/operations.py",)
 THOROUGH_SHARDS = 12
+AMBIENT_TESTS = ["tests/test_geometry"]
 
 _installed = False
 _suspend = 0  # >0 while the monitor's own re-invocations run
